@@ -29,13 +29,16 @@ RULE = ('pairs: every (a, b) in P_n x P_n for n in 1..3 for every ordered pair o
         '16^2 x 16^2 two-row stacks on n=2 (dense, sparse); overlap: every w in 0..N for N in the boundary list, 5 '
         'patterns x 4 representation mixes; syndrome: all 4^n errors for library codes with n<=8; converters: all '
         '4^n strings n<=4; bsparse: every BSF row on n<=3 qubits (canonical and unsorted csr, alone and inside a '
-        'stack) through hsplit/hstack/vstack/dot/is_one/equal. non-trivial = distinct (input, representation) tuples with a non-identity operand')
+        'stack) through hsplit/hstack/vstack/dot/is_one/equal; wide: every converter on single-qubit X/Z/Y at every '
+        'position, uniform and alternating operators for n around the 8/16/32/64-bit boundaries of 2n and up to '
+        'n=300 (2500 in thorough), single vectors and stacks of 3 dtypes. non-trivial = distinct (input, representation) tuples with a non-identity operand')
 ASSUMPTIONS = ['GF(2) reference mc/gf2.py']
 BOUNDS = {'quick': {'n_pairs': 3, 'overlap_N': [255, 256, 257, 511, 512, 513, 600], 'syndrome_max_n': 6,
-                    'conv_n': 4},
+                    'conv_n': 4, 'wide_n': [4, 8, 15, 16, 17, 31, 32, 33, 40, 63, 64, 65, 100, 300]},
           'thorough': {'n_pairs': 3, 'overlap_N': [254, 255, 256, 257, 258, 510, 511, 512, 513, 514, 600, 767, 768,
                                                    769, 1024, 1025],
-                       'syndrome_max_n': 8, 'conv_n': 5}}
+                       'syndrome_max_n': 8, 'conv_n': 5,
+                       'wide_n': [4, 7, 8, 9, 15, 16, 17, 31, 32, 33, 40, 63, 64, 65, 100, 127, 128, 129, 300, 1000, 2500]}}
 
 DTYPES = ['uint8', 'int8', 'uint16', 'int16', 'int32', 'int64', 'uint64']
 REPS = ['list'] + ['%s/1d' % d for d in DTYPES] + ['%s/2d' % d for d in DTYPES] + ['list/2d', 'csr',
@@ -86,6 +89,10 @@ def cases(tier, seed):
         out.append({'part': 'inplace', 'n': n})
     for n in (1, 2, 3):
         out.append({'part': 'bsparse', 'n': n})
+    # operators wider than any machine word: every converter on a structured family for n around the
+    # 8/16/32/64-bit boundaries of 2n and beyond
+    for n in b['wide_n']:
+        out.append({'part': 'wide', 'n': n})
     return out
 
 
@@ -436,6 +443,76 @@ def eval_inplace(case):
     return res
 
 
+def eval_wide(case):
+    """Converters on operators with many qubits.  Family: a single X, Z and Y at every position, all-X,
+    all-Z, all-Y, the two alternating patterns, first+last qubit - as single vectors and as one stack."""
+    from panqec import bpauli as bp
+    n = case['n']
+    res = {'evals': 0, 'nontrivial': 0, 'violations': [], 'outcomes': [], 'samples': [], 'extra': {}}
+    counts = {}
+
+    def bad(kind, **d):
+        counts[kind] = counts.get(kind, 0) + 1
+        if counts[kind] == 1 and len(res['violations']) < 6:
+            res['violations'].append({'key': {'part': 'wide', 'kind': kind, 'n': n}, 'detail': d})
+
+    pos = sorted(set(range(n)) if n <= 70 else set(range(0, 34)) | set(range(n - 34, n)) | {n // 2, 63, 64, 127, 128} & set(range(n)))
+    strs = ['I' * i + p + 'I' * (n - i - 1) for i in pos for p in 'XZY']
+    strs += [p * n for p in 'XZY'] + [''.join('XZ'[(i + s) % 2] for i in range(n)) for s in range(2)]
+    strs += ['Y' + 'I' * (n - 2) + 'Y'] if n >= 2 else []
+    vals = [gf2.pauli_string_to_int(s_) for s_ in strs]
+    allbits = [gf2.int_to_vec(v, 2 * n) for v in vals]
+    want_ints = [int(''.join(map(str, bits)), 2) for bits in allbits]
+    try:
+        for s_, bits, wi in zip(strs, allbits, want_ints):
+            res['evals'] += 1
+            w = sum(ch != 'I' for ch in s_)
+            if [int(t) for t in bp.pauli_to_bsf(s_)] != bits:
+                bad('pauli_to_bsf', s=s_[:80])
+            for dt in ('uint8', 'int64', 'uint64'):
+                arr = np.array(bits, dtype=dt)
+                if bp.bsf_to_pauli(arr) != s_:
+                    bad('bsf_to_pauli', s=s_[:80], dtype=dt)
+                if bp.bsf_wt(arr) != w:
+                    bad('bsf_wt', s=s_[:80], dtype=dt, got=int(bp.bsf_wt(arr)), expected=w)
+                got = bp.bvector_to_int(arr)
+                if got != wi:
+                    bad('bvector_to_int', s=s_[:80], dtype=dt)
+            if bp.bsf_to_pauli(csr_matrix(np.array([bits], dtype='uint8'))) != [s_]:
+                bad('bsf_to_pauli sparse', s=s_[:80])
+            if w and bp.bsf_wt(csr_matrix(np.array([bits], dtype='uint8'))) != w:
+                bad('bsf_wt sparse', s=s_[:80])
+            if [int(t) for t in bp.int_to_bvector(wi, n)] != bits:
+                bad('int_to_bvector', s=s_[:80])
+        # stacks: list of arrays, list of lists, 2-D arrays of several dtypes
+        stacks = [('list-of-uint-arrays', [np.array(bits, dtype=np.uint) for bits in allbits]),
+                  ('list-of-lists', [list(bits) for bits in allbits])]
+        for dt in ('uint8', 'int64', 'uint64'):
+            stacks.append(('2d-' + dt, np.array(allbits, dtype=dt)))
+        for name, st in stacks:
+            res['evals'] += 1
+            got = [int(t) for t in bp.bvectors_to_ints(st)]
+            if got != want_ints:
+                k = [i for i, (g_, w_) in enumerate(zip(got, want_ints)) if g_ != w_]
+                bad('bvectors_to_ints-differs-from-bvector_to_int', stack=name, first_operator=strs[k[0]][:80] if k else '?',
+                    wrong=len(k), operators=len(want_ints))
+            back = bp.ints_to_bvectors(got, n)
+            if [[int(t) for t in r] for r in back] != allbits and got == want_ints:
+                bad('ints_to_bvectors-of-bvectors_to_ints-not-identity', stack=name)
+        M = np.array(allbits, dtype='uint8')
+        if bp.bsf_to_pauli(M) != strs or bp.bsf_to_pauli(csr_matrix(M)) != strs:
+            bad('bsf_to_pauli stack')
+        if bp.bsf_wt(M) != sum(sum(ch != 'I' for ch in s_) for s_ in strs):
+            bad('bsf_wt stack')
+    except Exception as exc:
+        bad('converter-raises', exc=type(exc).__name__, msg=str(exc)[:150])
+    res['nontrivial'] = res['evals']
+    res['extra'].update({'wide_' + k.replace(' ', '_').replace('-', '_'): v for k, v in counts.items()})
+    res['outcomes'] = ['wide|%d|%s' % (n, ','.join(sorted(counts)) or 'ok')]
+    res['samples'].append({'n': n, 'operators': len(strs)})
+    return res
+
+
 def eval_bsparse(case):
     """The sparse-row helpers (panqec.bsparse) the sparse representation is handled with: splitting a row
     into its X and Z halves, joining the halves, stacking, row dot product, membership and equality - on
@@ -535,4 +612,4 @@ def eval_rank(case):
 
 def eval_case(case):
     return {'pairs': eval_pairs, 'stacks': eval_stacks, 'overlap': eval_overlap, 'syndrome': eval_syndrome,
-            'converters': eval_converters, 'rank': eval_rank, 'inplace': eval_inplace, 'bsparse': eval_bsparse}[case['part']](case)
+            'converters': eval_converters, 'rank': eval_rank, 'inplace': eval_inplace, 'bsparse': eval_bsparse, 'wide': eval_wide}[case['part']](case)
